@@ -299,7 +299,7 @@ def gen(rng, shard, nshards, names, n_per_field, n_binary):
                 c.only = tuple(c.only or ()) + tuple(f.configs)
         cases.extend(cs)
     cases.extend(gen_binary(rng, n_binary))
-    return cases
+    return vary_forms(cases, rng)
 
 
 def main(argv):
